@@ -111,7 +111,7 @@ func getRefinedValue(options *types.FieldOptions, rn *yaml.RNode) (*yaml.RNode, 
 
 func applyReplacement(nodes []*yaml.RNode, value *yaml.RNode, targetSelectors []*types.TargetSelector) ([]*yaml.RNode, error) {
 	for _, selector := range targetSelectors {
-		if selector.Select == nil {
+		if selector == nil || selector.Select == nil {
 			return nil, errors.Errorf("target must specify resources to select")
 		}
 		if len(selector.FieldPaths) == 0 {
@@ -152,6 +152,9 @@ func selectByAnnoAndLabel(n *yaml.RNode, t *types.TargetSelector) (bool, error) 
 		return false, err
 	}
 	for _, reject := range t.Reject {
+		if reject == nil {
+			continue
+		}
 		if reject.AnnotationSelector == "" && reject.LabelSelector == "" {
 			continue
 		}
@@ -177,7 +180,7 @@ func matchesAnnoAndLabelSelector(n *yaml.RNode, selector *types.Selector) (bool,
 
 func containsRejectId(rejects []*types.Selector, ids []resid.ResId) bool {
 	for _, r := range rejects {
-		if r.ResId.IsEmpty() {
+		if r == nil || r.ResId.IsEmpty() {
 			continue
 		}
 		for _, id := range ids {
